@@ -585,7 +585,7 @@ func ruleSendSites(c *Ctx, dv *dev, pf *parserFacts, shapes map[*ssa.Function]*c
 					// channel-mode messages 120..127 are allowed only as the explicit AllNotesOff constant
 					if k, isConst := args[pi].(*ssa.Const); isConst && k.Value != nil && k.Int64() >= 120 {
 						allNotesOff, _ := c.P.constValue(pkgMidi, "AllNotesOff")
-						if allNotesOff != nil && constant.Compare(allNotesOff, token.EQL, constant.MakeInt64(k.Int64())) {
+						if allNotesOff != nil && constant.Compare(allNotesOff, token.EQL, constant.MakeInt64(k.Int64())) && k.Int64() <= 127 {
 							c.OK("R5.4", ckey+"/"+names[i], cpos, "constant AllNotesOff (123)")
 						} else {
 							c.Bad("R5.4", ckey+"/"+names[i], cpos, fmt.Sprintf("controller constant %d is a channel-mode message other than AllNotesOff", k.Int64()))
